@@ -263,10 +263,6 @@ fn huge(rep: &mut Report) {
 pub fn run(args: &Args, rep: &mut Report) {
     let thorough = args.thorough();
     ledger(rep);
-    purity(rep);
-    if thorough {
-        huge(rep);
-    }
     let lens = lengths(thorough);
     let lite = lite_lengths();
     let streams = ["A", "B"];
@@ -315,6 +311,13 @@ pub fn run(args: &Args, rep: &mut Report) {
         run_table(&tables[*ti], lname, *level, local, &mut seen);
     });
     rep.merge(r2);
+    // the history-dependence sweep only means something if the plain sweep is clean
+    if rep.violations.is_empty() {
+        purity(rep);
+    }
+    if thorough {
+        huge(rep);
+    }
     rep.configs.push(subject::config_json());
     rep.rule = format!(
         "every length 0..={} plus the lattice k*1024+d (k<={}, 2^j chunks j<={}, {{4,8,16}}*m chunks; d in -65,-64,-63,-1,0,1,63,64,65) \
